@@ -145,7 +145,7 @@ theorem cnt_run {src0 : List Nat} {sched : List (Nat × Ev)} {s : TState}
     (hr : run (initState src0) sched = some s) (a : Nat) : s.cnt a = count a (submitted sched) := by
   refine run_induction (P := fun sched s => s.cnt a = count a (submitted sched)) ?_ ?_ sched s hr
   · simp [TState.cnt, initState, TState.preIds, TState.entryIds, TState.dispatchedIds, submitted]
-  · intro pre s t e s' hpre ih hs
+  · intro pre s t e s' hpre ih hs _
     have hreach : TReach src0 s := ⟨pre, hpre⟩
     rw [cnt_step (tinv_reach hreach) (qcinv_reach hreach).1 hs a, ih, submitted_snoc, count_append]
 
